@@ -9,6 +9,7 @@ Property theorems only (model: Model/ParserParamsDrive.lean; lemmas: Lemmas/Pars
 -/
 import VaxisModel.Lemmas.ParserParamsDrive
 import VaxisModel.Props.C08Pools
+import VaxisModel.Gen.ParserActs
 
 namespace VaxisModel.Props.C08DriveParams
 open VaxisModel.Model.ParserTable VaxisModel.Model.ParserPools
@@ -110,6 +111,53 @@ theorem driven_params_held_is_decoded (T : Table) (ls : List DLabel) (d : DSt)
   obtain ⟨v, hv, e⟩ := h2.cov x hx
   exact ⟨v, hv, by rw [h2.a.inv.intact x hx, e, h2.good v hv]⟩
 
+/-- **The hand-overs are the CSI items the automaton delivers.**  Along any composite run the
+    recorded hand-overs are, in order, exactly the `CSI` items with (non-nil) `Parameters` in the
+    channel output of the automaton, and `View.auto` is that item's `Parameters` field: the walk
+    expands `csiDispatch` at the statement and in the parser state at which the automaton emits the
+    item.  With `driven_params_handover_is_decoded`: the k-th CSI-with-parameters on the channel
+    reads, through the recycled arrays, the `Parameters` the C02 theorems speak about. -/
+theorem driven_params_handovers_are_delivered_csis (T : Table) (ls : List DLabel) (d : DSt)
+    (h : drun T DSt.init ls = some d) : d.acc.views.map (·.auto) = handed d.out :=
+  drun_views T ls DSt.init d WInv_init rfl h
+
+/-! ### the expansion is the body of `csiDispatch` as written in the source -/
+
+open VaxisModel.Model.ParserActs in
+/-- One iteration of the loop of `csiDispatch` as regenerated from the source (`switch b`: `case ';'`,
+    `case ':'`, `default`) issues, on **any** byte and **any** decoder state, the pool operations
+    `loopOps` assumes and leaves the same `ps`. -/
+theorem expansion_step (cases : List (Nat × List LoopOp)) (dflt : List LoopOp)
+    (h : BStmt.paramLoop cases dflt ∈ Gen.ParserActs.csiDispatchBody) : OpsStep cases dflt := by
+  simp [Gen.ParserActs.csiDispatchBody] at h
+  obtain ⟨rfl, rfl⟩ := h
+  intro b st
+  by_cases h1 : b = 0x3B
+  · subst h1; simp [findCase, opsOfOps, loopOpOps, LoopOp.run]
+  · by_cases h2 : b = 0x3A
+    · subst h2; simp [findCase, opsOfOps, loopOpOps, LoopOp.run]
+    · simp [findCase, h1, h2, opsOfOps, loopOpOps, LoopOp.run, wrap64_mul_add]
+
+/-- **`csiOps` is what the source says.**  Walking the statement skeleton of `csiDispatch` regenerated
+    from ansi/parser.go (`Gen.ParserActs.csiDispatchBody`; the same skeleton whose interpretation is
+    `applyAct .csiDispatch`: `Props.C02Acts.csiDispatch_body`) and issuing `begin` at
+    `paramListPool.Get()[:0]`, `get` at every `paramPool.Get()[:0]`, `app ps` at every
+    `append(param, ps)`, `push` at every `append(csi.Parameters, param)` and `emit` at the final
+    `p.emit(csi)` gives, for **all** parameter bytes, exactly the operation list the composite model
+    expands `csiDispatch` into (none when there are no parameter bytes: the early `emit; return`).
+    Proved by evaluating the walk on the regenerated list — a reordered `Get`/`append`, a dropped
+    `[:0]`-`Get` or an extra one breaks this theorem. -/
+theorem expansion_is_regenerated_body (params : List Rune) :
+    bodyOps params Gen.ParserActs.csiDispatchBody {} = csiOps params := by
+  have key := fun cs d h => opsOfLoop_sem cs d (expansion_step cs d h) params {}
+  unfold csiOps
+  cases hp : params.isEmpty with
+  | true => simp [Gen.ParserActs.csiDispatchBody, bodyOps, hp]
+  | false =>
+    simp only [Gen.ParserActs.csiDispatchBody, bodyOps, hp, loopOpOps, VaxisModel.Model.ParserActs.LoopOp.run,
+      Bool.false_eq_true, if_false, List.nil_append, List.cons_append]
+    rw [← key _ _ (by simp [Gen.ParserActs.csiDispatchBody]; exact ⟨rfl, rfl⟩)]
+
 /-- The cell encoding loses nothing. -/
 theorem cell_encoding_injective (v w : Int) (h : enc v = enc w) : v = w := enc_injective v w h
 
@@ -139,5 +187,17 @@ example : (drun handTable DSt.init exGrow).map (fun d => (d.out, d.acc.views.map
     [[[2, 4, 6, 8, 10, 12, 14], [2], [2], [2], [2]], [[18]]], true) := by decide +kernel
 example : (drun handTable DSt.init exGrow).map (fun d => (d.pool.delivered, d.pool.ppool.length, d.pool.lpool.length)) =
   some ([⟨⟨1, 1⟩, [[18]]⟩], 4, 0) := by decide +kernel
+
+-- in the middle of the second `csiDispatch` of `exHeld` (12 pool labels issued: `begin, get, app 4` of the
+-- second dispatch done, `push`/`emit` to come) the first CSI is held and reads what it read at delivery
+-- (`driven_params_delivered_immutable` with `n = 12` speaks about this state)
+example : ((drun handTable DSt.init exHeld).bind (fun d => prun PSt.init (d.trace.take 12))).map
+    (fun s => (s.work, s.delivered, pAllIntact s)) =
+  some (some (⟨1, 0⟩, some ⟨2, 1⟩), [⟨⟨0, 2⟩, [[2], [4, 6]]⟩], true) := by decide +kernel
+
+-- `ESC [ m`: no parameter bytes — `csiDispatch` takes the early `emit; return`, touches no pool, hands
+-- no storage over (`Parameters` is nil)
+example : (drun handTable DSt.init [.rune 0x1B [], .rune 0x5B [], .rune 0x6D []]).map
+    (fun d => (d.out, d.trace, d.acc.views)) = some ([.csi [] [] 0x6D], [], []) := by decide +kernel
 
 end VaxisModel.Props.C08DriveParams
